@@ -26,6 +26,8 @@ import (
 	"math/rand"
 	"os"
 	"path/filepath"
+	"regexp"
+	"runtime"
 	"sort"
 	"strconv"
 	"strings"
@@ -85,7 +87,7 @@ func templSource(kind, rel string) string {
 	id := ident(rel)
 	switch kind {
 	case "good":
-		return "package p\n\ntempl Hello" + id + "(name string) {\n\t<div data-file=\"" + rel + "\">Hello, { name } \\ \"" + id + "\"</div>\n}\n"
+		return goodTemplate(id, rel)
 	case "unparsable":
 		return "package p\n\ntempl Broken" + id + "() {\n\t<div>\n"
 	case "badgo":
@@ -93,6 +95,41 @@ func templSource(kind, rel string) string {
 	}
 	vhlib.Fatal("unknown templ kind %q", kind)
 	return ""
+}
+
+// goodTemplate is a template that generates. Its shape depends on the path, and it exercises the generator code
+// that collects things per element before writing them (where an unordered collection would make the output
+// depend on more than the file): elements with several DIFFERENT on* / hx-on: script expressions (also inside
+// conditional attributes), several class expressions with css components, spread, conditional and boolean
+// attributes, script and css templates.
+func goodTemplate(id, rel string) string {
+	h := sha256.Sum256([]byte("shape:" + rel))
+	handlers := []string{`onmouseover={ hA` + id + `("x") }`, `onclick={ hB` + id + `() }`, `onfocus={ hC` + id + `() }`, `hx-on:click={ hD` + id + `() }`}
+	// rotate / truncate (at least two different handlers stay)
+	rot := int(h[0]) % len(handlers)
+	handlers = append(handlers[rot:], handlers[:rot]...)
+	handlers = handlers[:2+int(h[1])%3]
+	var sb strings.Builder
+	sb.WriteString("package p\n\n")
+	for _, n := range []string{"A", "B", "C", "D"} {
+		sb.WriteString("script h" + n + id + "(")
+		if n == "A" {
+			sb.WriteString("msg string")
+		}
+		sb.WriteString(") {\n\tconsole.log(\"" + n + "\");\n}\n\n")
+	}
+	sb.WriteString("css cA" + id + "() {\n\tcolor: red;\n}\n\ncss cB" + id + "(w string) {\n\twidth: { w };\n\tmargin: 0;\n}\n\n")
+	sb.WriteString("templ Hello" + id + "(name string, on bool, attrs templ.Attributes) {\n")
+	sb.WriteString("\t<div data-file=\"" + rel + "\" class={ \"k\", cA" + id + "(), templ.KV(cB" + id + "(\"1px\"), on) }>Hello, { name } \\ \"" + id + "\"</div>\n")
+	sb.WriteString("\t<button " + strings.Join(handlers, " ") + " { attrs... }\n\t\tif on {\n\t\t\tdisabled\n\t\t\tonblur={ hB" + id + "() }\n\t\t\tonkeyup={ hD" + id + "() }\n\t\t} else {\n\t\t\ttitle=\"t\"\n\t\t\tonkeydown={ hC" + id + "() }\n\t\t}\n\t>go</button>\n")
+	if h[2]%2 == 0 {
+		sb.WriteString("\t<p class={ cA" + id + "(), \"x\" } style={ \"color:red\" } { attrs... } hidden?={ on }></p>\n")
+	} else {
+		sb.WriteString("\t<input type=\"text\" class={ cB" + id + "(\"2px\") } onchange={ hC" + id + "() } oninput={ hA" + id + "(name) } readonly?={ on }/>\n")
+	}
+	sb.WriteString("\t<script onload={ hB" + id + "() } onerror={ hA" + id + "(\"e\") }>var x = 1;</script>\n")
+	sb.WriteString("}\n")
+	return sb.String()
 }
 
 // solo generates one template in isolation: parser + generator + gofmt, nothing else.
@@ -116,6 +153,36 @@ func solo(src, relName string, ver bool) ([]byte, error) {
 	return out, nil
 }
 
+// soloFn is "the generation of that file alone" as a function: it is computed several times, and if two of the
+// results differ the generator is not a function of the file (second result = a differing generation).
+func soloFn(src, relName string, ver bool, times int) (out []byte, other []byte, err error) {
+	// the result for (file contents, name, flag) is remembered: the same file occurs in many cases
+	type res struct{ out, other []byte }
+	key := fmt.Sprintf("%d\x00%v\x00%s\x00%s", times, ver, relName, src)
+	if r, ok := soloCache.Load(key); ok {
+		return r.(res).out, r.(res).other, nil
+	}
+	defer func() {
+		if err == nil {
+			// concurrent first computations: everybody uses the result that was stored first
+			r, _ := soloCache.LoadOrStore(key, res{out, other})
+			out, other = r.(res).out, r.(res).other
+		}
+	}()
+	for i := 0; i < times; i++ {
+		o, err := solo(src, relName, ver)
+		if err != nil {
+			return nil, nil, err
+		}
+		if i == 0 {
+			out = o
+		} else if !bytes.Equal(o, out) {
+			return out, o, nil
+		}
+	}
+	return out, nil, nil
+}
+
 // content of a file of the abstract tree. For generated files ("genV"/"genN") it is the solo generation of
 // the sibling template (of a good template at that place if there is none).
 func content(f file) []byte {
@@ -128,7 +195,8 @@ func content(f file) []byte {
 			return []byte("package p\n\n// stale or hand-written " + ident(rel) + "\n")
 		}
 		trel := strings.TrimSuffix(rel, "_templ.go") + ".templ"
-		out, err := solo(templSource("good", trel), trel, f.C == "genV")
+		// remembered (soloFn): the bytes written into the tree and the bytes compared later are the same
+		out, _, err := soloFn(templSource("good", trel), trel, f.C == "genV", 3)
 		if err != nil {
 			vhlib.Fatal("solo generation failed: %v", err)
 		}
@@ -182,7 +250,7 @@ type failure struct {
 }
 
 // compare checks the real tree against the specification's predicted tree.
-func compare(tc *tcase, run int, want []file, initial map[string]file, got snapshot, soloOf func(rel string) []byte) []failure {
+func compare(tc *tcase, run int, want []file, initial map[string]file, got snapshot, soloOf func(rel string, times int) ([]byte, []byte)) []failure {
 	var out []failure
 	wantSet := map[string]file{}
 	for _, f := range want {
@@ -210,8 +278,15 @@ func compare(tc *tcase, run int, want []file, initial map[string]file, got snaps
 			out = append(out, failure{sig, "a file the specification keeps is missing", map[string]any{"file": rel, "run": run}})
 		case w.M >= 3:
 			// written by a run: must be the solo generation
-			exp := soloOf(rel)
-			if !bytes.Equal(g.Data, exp) {
+			exp, other := soloOf(rel, 3)
+			if other == nil && !bytes.Equal(g.Data, exp) {
+				// before blaming the command: is "the generation of the file alone" a function at all?
+				exp, other = soloOf(rel, 12)
+			}
+			if other != nil {
+				out = append(out, failure{"SoloGeneration.NotAFunction", "generating the same template file twice (parser + generator + gofmt, nothing else) gives different bytes: the output is not a function of the file",
+					map[string]any{"file": rel, "run": run, "generation_1": string(exp), "generation_2": string(other)}})
+			} else if !bytes.Equal(g.Data, exp) {
 				out = append(out, failure{"SiblingEqualsSoloGeneration.ContentDiffers", "generated file differs from the generation of its template alone",
 					map[string]any{"file": rel, "run": run, "got": string(g.Data), "want": string(exp)}})
 			}
@@ -255,6 +330,89 @@ func compare(tc *tcase, run int, want []file, initial map[string]file, got snaps
 }
 
 type traceLine map[string]any
+
+var soloCache sync.Map
+
+// watchdog bounds one generatecmd.Run (normally milliseconds).
+var watchdog = 20 * time.Second
+
+var (
+	aborting  sync.RWMutex // held for reading by every Run; the hang confirmation waits for the others to finish
+	frameRun  = regexp.MustCompile(`generatecmd\.Generate\.Run\.func`)
+	frameWork = regexp.MustCompile(`generatecmd\.\(\*FSEventHandler\)\.(HandleEvent|generate)`)
+	frameLine = regexp.MustCompile(`^\s+(/\S+\.go):(\d+)`)
+)
+
+// runWatched runs generatecmd.Run; if it does not return within the watchdog time it tries to confirm a leaked
+// semaphore slot: after every other run has finished, two goroutine dumps one second apart must both show the same
+// goroutine blocked in a channel send inside Generate.Run at a source line that acquires the semaphore ("sem <-"),
+// while no goroutine is inside HandleEvent. An unconfirmed timeout is a machinery failure (exit 2).
+func runWatched(args generatecmd.Arguments) (err error, hang map[string]any) {
+	aborting.RLock()
+	done := make(chan error, 1)
+	go func() { done <- generatecmd.Run(context.Background(), logger, args) }()
+	select {
+	case err = <-done:
+		aborting.RUnlock()
+		return err, nil
+	case <-time.After(watchdog):
+	}
+	aborting.RUnlock()
+	// let the runs that are in flight finish (or time out themselves); no new run starts meanwhile
+	locked := make(chan struct{})
+	go func() { aborting.Lock(); close(locked) }()
+	select {
+	case <-locked:
+	case <-time.After(watchdog + 5*time.Second):
+	}
+	blocked := func() (map[string]string, bool, string) {
+		buf := make([]byte, 8<<20)
+		buf = buf[:runtime.Stack(buf, true)]
+		res := map[string]string{}
+		working := false
+		for _, g := range strings.Split(string(buf), "\n\n") {
+			lines := strings.Split(g, "\n")
+			if len(lines) < 3 || !strings.HasPrefix(lines[0], "goroutine ") {
+				continue
+			}
+			if frameWork.MatchString(g) {
+				working = true
+			}
+			if !strings.Contains(lines[0], "[chan send") || !frameRun.MatchString(g) {
+				continue
+			}
+			// the first frame inside Generate.Run: its source line must be the semaphore acquire
+			for i := 1; i+1 < len(lines); i++ {
+				if frameRun.MatchString(lines[i]) {
+					if m := frameLine.FindStringSubmatch(lines[i+1]); m != nil {
+						n, _ := strconv.Atoi(m[2])
+						if src, err := os.ReadFile(m[1]); err == nil {
+							sl := strings.Split(string(src), "\n")
+							if n >= 1 && n <= len(sl) && strings.Contains(sl[n-1], "sem <-") {
+								res[strings.Fields(lines[0])[1]] = strings.TrimSpace(sl[n-1]) + " (" + filepath.Base(m[1]) + ":" + m[2] + ")"
+							}
+						}
+					}
+					break
+				}
+			}
+		}
+		return res, working, string(buf)
+	}
+	b1, w1, _ := blocked()
+	time.Sleep(time.Second)
+	b2, w2, dump := blocked()
+	for id, at := range b1 {
+		if b2[id] == at && !w1 && !w2 {
+			if len(dump) > 6000 {
+				dump = dump[:6000]
+			}
+			return nil, map[string]any{"blocked_goroutine": id, "blocked_at": at, "watchdog_seconds": watchdog.Seconds(), "goroutines": dump}
+		}
+	}
+	vhlib.Fatal("generatecmd.Run did not return within %s, and a leaked semaphore slot could not be confirmed (blocked: %v / %v, workers running: %v %v)", watchdog, b1, b2, w1, w2)
+	return nil, nil
+}
 
 func main() {
 	if len(os.Args) < 7 || os.Args[1] != "run" {
@@ -360,6 +518,7 @@ func main() {
 	var mu sync.Mutex
 	runs, fails, traced := 0, 0, 0
 	countDrift := 0
+	regenerating := 0 // second runs that really rewrote at least one file (-lazy off)
 	sigCount := map[string]int{}
 	var traceOut *os.File
 	if hooksPresent && tracePath != "-" {
@@ -404,24 +563,35 @@ func main() {
 						}
 						initial[f.rel()] = f
 					}
-					soloOf := func(rel string) []byte {
+					var fl []failure
+					for _, f := range c.Files {
+						// every template of the tree: is its generation a function of the file?
+						if strings.HasSuffix(f.Name, ".templ") && f.C == "good" {
+							if g1, g2, err := soloFn(templSource("good", f.rel()), filepath.ToSlash(f.rel()), c.Flags.Ver, 3); err == nil && g2 != nil {
+								fl = append(fl, failure{"SoloGeneration.NotAFunction", "generating the same template file twice (parser + generator + gofmt, nothing else) gives different bytes: the output is not a function of the file",
+									map[string]any{"file": f.rel(), "generation_1": string(g1), "generation_2": string(g2)}})
+								break
+							}
+						}
+					}
+					soloOf := func(rel string, times int) ([]byte, []byte) {
 						trel := strings.TrimSuffix(rel, "_templ.go") + ".templ"
 						src, err := os.ReadFile(filepath.Join(root, trel))
 						if err != nil {
 							vhlib.Fatal("no template for generated file %s: %v", rel, err)
 						}
-						out, err := solo(string(src), filepath.ToSlash(trel), c.Flags.Ver)
+						out, other, err := soloFn(string(src), filepath.ToSlash(trel), c.Flags.Ver, times)
 						if err != nil {
 							vhlib.Fatal("solo generation of %s failed: %v", trel, err)
 						}
-						return out
+						return out, other
 					}
 					args := generatecmd.Arguments{Path: root, WorkerCount: j.w, KeepOrphanedFiles: c.Flags.Keep, Lazy: c.Flags.Lazy, IncludeVersion: c.Flags.Ver}
-					var fl []failure
 					var trace []traceLine
+					var after1 snapshot
 					record := j.hooked && traceOut != nil && j.n%traceEvery == 0
 					rng := rand.New(rand.NewSource(seed*1000003 + int64(c.ID)*31 + int64(j.w)*7 + int64(j.rep)))
-					for run := 1; run <= 2; run++ {
+					for run := 1; run <= 2 && len(fl) == 0; run++ {
 						if record {
 							trace = append(trace, traceLine{"ev": "reset", "case": c.ID, "run": run, "w": j.w, "flags": c.Flags, "files": treeOf(root)})
 						}
@@ -429,7 +599,18 @@ func main() {
 						if j.hooked {
 							stop = installHook(root, rng, true)
 						}
-						err := generatecmd.Run(context.Background(), logger, args)
+						err, hang := runWatched(args)
+						if hang != nil {
+							// generatecmd.Run did not return: confirmed by two goroutine dumps (see confirmHang)
+							hang["tree"] = c.Files
+							hang["flags"] = c.Flags
+							hang["workers"] = j.w
+							hang["run"] = run
+							vhlib.Fail("Deadlock.SemaphoreSlotLeaked", "generatecmd.Run never returns: the dispatcher is blocked on the semaphore acquire although no worker is running (a worker slot was not released)", hang)
+							mu.Lock()
+							vhlib.Summary(map[string]any{"cases": len(cases), "runs": runs, "aborted": true, "fails": fails + 1, "hooks": hooksPresent})
+							os.Exit(0)
+						}
 						var evs []hookEvent
 						if j.hooked {
 							evs = stop()
@@ -466,6 +647,30 @@ func main() {
 						}
 						// after the second run the specification's tree has the same files with the same contents
 						fl = append(fl, compare(c, run, want, initial, got, soloOf)...)
+						if run == 1 {
+							after1 = got
+						} else if len(fl) == 0 {
+							// "running it again leaves the contents of every file unchanged" -- on the real bytes
+							rewritten := 0
+							for rel, g1 := range after1 {
+								g2, ok := got[rel]
+								if g1.Dir || !ok {
+									continue
+								}
+								if !g2.Mod.Equal(g1.Mod) {
+									rewritten++
+								}
+								if !bytes.Equal(g1.Data, g2.Data) {
+									fl = append(fl, failure{"SecondRunChangesNothing.ContentChanged", "the second run changed the contents of a file",
+										map[string]any{"file": rel, "after_run_1": string(g1.Data), "after_run_2": string(g2.Data)}})
+								}
+							}
+							if rewritten > 0 {
+								mu.Lock()
+								regenerating++
+								mu.Unlock()
+							}
+						}
 						if len(fl) > 0 {
 							break
 						}
@@ -511,7 +716,7 @@ func main() {
 	}
 	runJobs(jobs, 12)
 	runJobs(hooked, 1)
-	vhlib.Summary(map[string]any{"cases": len(cases), "runs": runs, "jobs": len(jobs) + len(hooked), "hooked_runs": len(hooked), "error_count_drift": countDrift, "fails": fails, "worker_counts": workers, "reps": reps,
+	vhlib.Summary(map[string]any{"cases": len(cases), "runs": runs, "jobs": len(jobs) + len(hooked), "hooked_runs": len(hooked), "error_count_drift": countDrift, "second_runs_regenerating": regenerating, "watchdog_seconds": watchdog.Seconds(), "fails": fails, "worker_counts": workers, "reps": reps,
 		"hooks": hooksPresent, "traced_runs": traced, "hook_events": hookEventCount(), "perturbations": perturbCount(), "signatures": sigCount})
 }
 
